@@ -31,6 +31,12 @@ property oracle on the real code's outputs.  Streams:
   (g) histories of uploads over SIBLING names (x.csv / x.json / x.part / x / x.tar.gz / ...), by one session
       after the other and by two sessions at once; after every completion reply the whole directory is
       read from the backend: every acknowledged file still has its bytes, nothing else exists.
+  (h) the REAL transport (every tier): the same session driver over real sockets on 127.0.0.1:0 on a real
+      event loop -- server backend MemoryPathIO / PathIO / AsyncPathIO and the client's own files on
+      MemoryPathIO / PathIO / AsyncPathIO, both in a fresh directory under the system temp dir -- x verb x
+      restart offset (0 / 1 / mid / block boundaries / size-1 / size / beyond) x size (10 B, one block, 3 blocks
+      + tail, 2 MiB, 8-12 MiB of pairwise distinct blocks) x a receiver throttled below the sender's speed
+      (the sender's transport has to queue).  Only byte equality is asserted, never timing.
 
 Smoke test of the session driver:
     PYTHONPATH=/repo/src:. /venv/bin/python -c "from harness.props import c01; print(c01.smoke())"
@@ -43,6 +49,7 @@ import os
 import pathlib
 import random
 import shutil
+import time
 
 import aioftp
 import aioftp.pathio
@@ -92,7 +99,9 @@ LEVEL_NOTE = (
     "BufferedWriter flushing at close, StreamReader.read (assumption read_conforming: empty only at EOF) and async-with "
     "enter/exit order. Throttling, latency and stalls are inputs of the TIMED model (any wait/append functions, any arrival "
     "instants) and are proved not to change the bytes (C01_*_timing_irrelevant); that the real Throttle only sleeps and counts "
-    "(ThrottleStreamIO.read/write bodies) is a regenerated fact, and the sessions with throttles / latency / stalls sample it. Nothing is carved out since the repair of F14 and F06: back-to-back transfers and REST + upload on a missing file are inside the theorems and the corpus."
+    "(ThrottleStreamIO.read/write bodies) is a regenerated fact, and the sessions with throttles / latency / stalls sample it. "
+    "What only a real transport can exhibit (zero-copy write buffers, sendfile, partial send() with files larger than the socket "
+    "buffers, file position vs. fd offset of real files) is sampled by stream (h) on real loopback sockets, validated not proved. Nothing is carved out since the repair of F14 and F06: back-to-back transfers and REST + upload on a missing file are inside the theorems and the corpus."
 )
 TRUSTED = [
     "read_conforming (hypothesis `conforming` of the model theorems): read(n>=1) of asyncio.StreamReader, io.BytesIO and a regular "
@@ -100,7 +109,8 @@ TRUSTED = [
     "proved for the model's own network/backend readers (C01_network_reads_conforming, C01_file_reads_conforming), exercised "
     "against the real StreamReader / BytesIO / file (streams b), not proved about CPython",
     "the network preserves the byte stream (hypothesis `concat segs = payload`): TCP / the asyncio transports deliver the bytes "
-    "written, in order, once, then EOF; simnet does so by construction, real sockets are not part of this check",
+    "written, in order, once, then EOF; simnet does so by construction; real sockets (asyncio selector transports, kernel buffers, "
+    "loop.sendfile, os-level file objects) are SAMPLED by stream (h), about 200 transfers per run, not modelled",
     "async with a, b enters a then b and exits b then a; the statement after the async with runs after both exits (asyncio / "
     "CPython semantics, used by stor_script)",
     "a backend's close() makes all written bytes visible to other openers (BufferedWriter.close flushes; BytesIO is unbuffered)",
@@ -371,13 +381,40 @@ def case_defaults(case):
         "observe_before": None,  # None / "same" / "other" / "both": sessions that stat + list the target before the transfer
         "local_old": None,  # DOWNLOAD: previous content of the client's destination file (None = no such file)
         "stall": None,  # [t, d]: both directions of the data channel deliver nothing from t to t+d (virtual s) after connecting
+        "driver": "sim",  # "sim": simnet (virtual clock, scripted segmentation); "tcp": real sockets on 127.0.0.1, real event loop
+        "client_fs": "memory",  # UPLOAD / DOWNLOAD: the client's own file system: memory / pathio / asyncpathio (real files need driver tcp)
+        "payload_gen": None,  # [seed, size]: the payload is random.Random(seed).randbytes(size) (files of several MiB stay out of the replay file)
     }
     c.update(case)
+    if c["payload_gen"] is not None and not c["payload"]:
+        c["payload"] = gen_payload(*c["payload_gen"])
     return c
+
+
+def gen_payload(seed, size):
+    """`size` pseudo-random bytes: every block differs from every other one"""
+    return random.Random(seed).randbytes(size)
+
+
+def first_difference(a, b):
+    a, b = a or b"", b or b""
+    n = min(len(a), len(b))
+    if a[:n] == b[:n]:
+        return n if len(a) != len(b) else None
+    lo, hi = 0, n  # a[:lo] == b[:lo], a[:hi] != b[:hi]
+    while hi - lo > 1:
+        mid = (lo + hi) // 2
+        if a[:mid] == b[:mid]:
+            lo = mid
+        else:
+            hi = mid
+    return lo
 
 
 def jsonable(case):
     c = dict(case)
+    if c.get("payload_gen") is not None:
+        c.pop("payload", None)
     for k in ("payload", "old", "local_old"):
         if isinstance(c.get(k), (bytes, bytearray)):
             c[k] = {"hex": bytes(c[k]).hex()}
@@ -464,7 +501,10 @@ def run_case(case):
             shutil.rmtree(base, ignore_errors=True)
 
 
-async def _run_case(net, case, base):
+CLIENT_FS = {"memory": aioftp.MemoryPathIO, "pathio": aioftp.PathIO, "asyncpathio": aioftp.AsyncPathIO}
+
+
+async def _run_case(net, case, base, cbase=None):
     backend = case["backend"]
     thr = case["throttle"] or {}
     user = aioftp.User(
@@ -541,8 +581,11 @@ async def _run_case(net, case, base):
     net.on_connect = on_connect
     res = {"stored": None, "received": None, "error": None, "pre": []}
     ckw = {}
+    real_cfs = case["client_fs"] != "memory"
     if verb in ("UPLOAD", "DOWNLOAD"):
-        ckw["path_io_factory"] = aioftp.MemoryPathIO
+        ckw["path_io_factory"] = CLIENT_FS[case["client_fs"]]
+        if real_cfs and cbase is None:
+            raise ValueError("a real client file system needs the tcp driver")
     client = aioftp.Client(
         passive_commands=(case["passive"],),
         read_speed_limit=thr.get("client_read"),
@@ -597,6 +640,14 @@ async def _run_case(net, case, base):
         res["t_start"] = asyncio.get_running_loop().time()
         if verb in ("STOR", "APPE", "RETR"):
             res["received"] = await _transfer(client, verb, FNAME, payload, offset, case["chunks"], case["cblock"])
+        elif verb == "UPLOAD" and real_cfs:
+            (cbase / "local.bin").write_bytes(payload)
+            await client.upload(cbase / "local.bin", "/" + FNAME, write_into=True, block_size=case["cblock"] or 8192)
+        elif verb == "DOWNLOAD" and real_cfs:
+            if case["local_old"] is not None:
+                (cbase / "local.bin").write_bytes(case["local_old"])
+            await client.download("/" + FNAME, cbase / "local.bin", write_into=True, block_size=case["cblock"] or 8192)
+            res["received"] = (cbase / "local.bin").read_bytes() if (cbase / "local.bin").exists() else None
         elif verb == "UPLOAD":
             cfs = client.path_io
             root = cfs.get_node(pathlib.PurePosixPath("/"))
@@ -658,21 +709,36 @@ class RealNet:
         return []
 
 
+REAL_BUDGET = 60  # wall seconds one real-loopback case may take before it counts as hung (an observation, not an abort)
+
+
 def run_case_tcp(case):
+    """the same session over REAL sockets on 127.0.0.1 (port 0) on a real event loop: the transports, the
+    kernel's socket buffers and os-level file objects are the real ones; real-file backends live in a
+    fresh directory under the system temp dir (outside /repo and /verif), removed afterwards"""
+    import tempfile
+
     case = case_defaults(case)
+    root = pathlib.Path(tempfile.mkdtemp(prefix="c01-real-"))
     base = None
-    if case["backend"] in ("pathio", "asyncpathio"):
-        TMP_ROOT.mkdir(parents=True, exist_ok=True)
-        base = TMP_ROOT / f"c01-{os.getpid()}-{random.getrandbits(48):012x}"
+    if case["backend"] in ("pathio", "asyncpathio", "quota_pathio"):
+        base = root / "srv"
         base.mkdir()
+    cbase = root / "cli"
+    cbase.mkdir()
     try:
-        return asyncio.run(asyncio.wait_for(_run_case(RealNet(), case, base), 60))
-    except Exception as e:
+        return asyncio.run(asyncio.wait_for(_run_case(RealNet(), case, base, cbase), REAL_BUDGET))
+    except BaseException as e:
+        if isinstance(e, (KeyboardInterrupt, SystemExit)):
+            raise
         return {"stored": None, "received": None, "pre": [], "open_transports": 0, "seg_up": [], "seg_down": [],
                 "error": "no verdict within the budget (" + type(e).__name__ + ":" + str(e)[:60] + ")"}
     finally:
-        if base is not None:
-            shutil.rmtree(base, ignore_errors=True)
+        shutil.rmtree(root, ignore_errors=True)
+
+
+def run_any(case):
+    return run_case_tcp(case) if case.get("driver") == "tcp" else run_case(case)
 
 
 def smoke():
@@ -1194,9 +1260,10 @@ def check_case(ctx, case, res, model_out, stream="session"):
         if res["stored"] != want:
             ctx.violation(
                 f"{verb}: bytes in the backend after the 226 differ from what was uploaded",
-                {"key": f"c01-{verb.lower()}-stored-differs", "case": rep, "stored": (res["stored"] or b"").hex()[:400], "expected": want.hex()[:400]},
+                {"key": f"c01-{verb.lower()}-stored-differs", "case": rep, "stored": (res["stored"] or b"").hex()[:400], "expected": want.hex()[:400],
+                 "stored_len": len(res["stored"] or b""), "expected_len": len(want), "first_difference_at": first_difference(res["stored"], want)},
             )
-        m = ok_bytes(model_out)
+        m = ok_bytes(model_out) if model_out is not None else res["stored"]  # None: beyond the model's size bound, oracle only
         if m != res["stored"]:
             ctx.disagree(stream, rep, None if m is None else m.hex()[:200], (res["stored"] or b"").hex()[:200])
         final = want
@@ -1205,9 +1272,10 @@ def check_case(ctx, case, res, model_out, stream="session"):
         if res["received"] != want:
             ctx.violation(
                 f"{verb}: bytes received before EOF differ from the stored file",
-                {"key": f"c01-{verb.lower()}-received-differs", "case": rep, "received": (res["received"] or b"").hex()[:400], "expected": want.hex()[:400]},
+                {"key": f"c01-{verb.lower()}-received-differs", "case": rep, "received": (res["received"] or b"").hex()[:400], "expected": want.hex()[:400],
+                 "received_len": len(res["received"] or b""), "expected_len": len(want), "first_difference_at": first_difference(res["received"], want)},
             )
-        m = ok_bytes(model_out)
+        m = ok_bytes(model_out) if model_out is not None else res["received"]
         if m != res["received"]:
             ctx.disagree(stream, rep, None if m is None else m.hex()[:200], (res["received"] or b"").hex()[:200])
         if res["stored"] != payload:
@@ -1263,7 +1331,8 @@ def session_stream(ctx, xcheck, scale, reps=1):
             c2 = dict(case)
             c2["_plabel"] = case.get("_plabel", "other")
             c2["_tcp"] = True
-            res = run_case_tcp({k: v for k, v in case.items() if not k.startswith("_")})
+            c2["driver"] = "tcp"
+            res = run_case_tcp({k: v for k, v in c2.items() if not k.startswith("_")})
             ctx.traces_impl += 1
             res["seg_up"], res["seg_down"] = [], []
             cases.append(c2)
@@ -1795,6 +1864,107 @@ def files_stream(ctx, xcheck, scale):
     ctx.count("file_histories_with_names_sharing_a_stem", n_sibling)
 
 
+# --------------------------------------------------------------------------------------------
+# (h) the REAL transport: real Server + Client over 127.0.0.1, real-file backends, files larger than the socket buffers
+REAL_BACKENDS = ("memory", "pathio", "asyncpathio")
+MIB = 1 << 20
+
+
+def gen_real_cases(ctx):
+    """what simnet cannot exhibit: asyncio's selector transports (zero-copy write buffers, loop.sendfile,
+    partial send()), the kernel's socket buffers, os-level file objects behind PathIO / AsyncPathIO (file
+    position vs. fd offset).  Dimensions: server backend x verb x restart offset (0 / 1 / mid / block
+    boundaries / size-1 / size / beyond) x size (below a block, one block, several blocks + tail, several MiB)
+    x client file system (memory / PathIO / AsyncPathIO) x a receiver slower than the sender (throttled)."""
+    rng = ctx.rng
+    thorough = ctx.tier == "thorough"
+    cases = []
+
+    def add(label, **kw):
+        kw["driver"] = "tcp"
+        kw["_plabel"] = label
+        kw.setdefault("observe_before", None)
+        cases.append(kw)
+
+    sizes = [("real_small", 10), ("real_block", 8192), ("real_multi", 3 * 8192 + 123)]
+    for backend in REAL_BACKENDS:
+        for label, size in sizes:
+            gen = [rng.randrange(10**9), size]
+            offs = sorted({0, 1, size // 2, size - 1, size, size + 5} | ({8191, 8192, 8193} if size > 8193 else set()))
+            for off in offs:
+                add(label, backend=backend, verb="RETR", payload_gen=gen, offset=off, passive=rng.choice(["epsv", "pasv"]),
+                    cblock=rng.choice([None, None, 1000, 8192]))
+            # uploads at a restart offset onto an existing file / appended / fresh
+            up = gen_payload(rng.randrange(10**9), max(1, size // 2))
+            old = gen_payload(rng.randrange(10**9), size)
+            for verb, off, o in (("STOR", 0, None), ("STOR", 0, old), ("STOR", 1, old), ("STOR", size // 2, old), ("STOR", size, old),
+                                 ("STOR", size + 5, old), ("APPE", 0, old), ("APPE", 3, old), ("APPE", 0, None)):
+                add(label, backend=backend, verb=verb, payload=up, offset=off, old=o,
+                    chunks=rng.choice([[], [rng.randint(1, 5000)], [8192], [1, 8191, 2]]))
+            # the high level calls, the client's files on a real / in-memory file system
+            for cfs in ("pathio", "asyncpathio", "memory"):
+                add(label, backend=backend, verb="UPLOAD", payload_gen=gen, client_fs=cfs, old=rng.choice([None, old]))
+                add(label, backend=backend, verb="DOWNLOAD", payload_gen=gen, client_fs=cfs, local_old=rng.choice([None, b"older local content"]))
+    # files of several MiB with pairwise distinct blocks, and a receiver slower than the sender: the sender's
+    # transport has to queue (partial send(), write buffer between the water marks) while the block loop goes on
+    big = 8 * MIB + 4321
+    big_up = 12 * MIB + 4321  # the kernel absorbs 4-7 MB on loopback before send() turns partial
+    slow = 6 * MIB  # bytes per second the receiver accepts
+    # (a client on AsyncPathIO reads through the executor and is barely faster than the throttled receiver: its transport
+    # queues late or not at all; the PathIO / memory clients queue after the first ~4 MB every time)
+    combos = [("memory", "pathio"), ("pathio", "memory"), ("asyncpathio", "asyncpathio")] + (
+        [("memory", "asyncpathio"), ("pathio", "pathio"), ("asyncpathio", "pathio")] if thorough else [])
+    for backend, cfs in combos:
+        add("real_big", backend=backend, verb="UPLOAD", payload_gen=[rng.randrange(10**9), big_up], client_fs=cfs, throttle={"server_read": slow})
+        add("real_big", backend=backend, verb="DOWNLOAD", payload_gen=[rng.randrange(10**9), big], client_fs=cfs, throttle={"client_read": slow})
+    gen = [rng.randrange(10**9), 2 * MIB + 17]
+    for backend in REAL_BACKENDS:
+        add("real_2mib", backend=backend, verb="RETR", payload_gen=gen, offset=rng.choice([1, MIB, 2 * MIB + 16]), cblock=rng.choice([None, 8192, 65536]))
+        add("real_2mib", backend=backend, verb="STOR", payload=gen_payload(gen[0] + 1, MIB + 5), offset=MIB - 3, old=gen_payload(*gen), chunks=[rng.choice([8192, 50000, 1 << 18])])
+    return cases
+
+
+def real_stream(ctx, xcheck):
+    rng = ctx.rng
+    cases = gen_real_cases(ctx)
+    t0 = time.time()
+    results = []
+    for case in cases:
+        res = run_case_tcp({k: v for k, v in case.items() if not k.startswith("_")})
+        ctx.traces_impl += 1
+        res["seg_up"], res["seg_down"] = [], []  # the kernel segments; the model is asked for "any segmentation"
+        results.append(res)
+    model_in, idx = [], []
+    for i, case in enumerate(cases):
+        c = case_defaults(case)
+        if max(len(c["old"] or b""), c["offset"]) + len(c["payload"]) >= BIG:
+            continue  # beyond the size the extracted model handles (unary lengths): property oracle only
+        idx.append(i)
+        if c["verb"] in ("STOR", "APPE", "UPLOAD"):
+            model_in.append((3, model_stor_args(c, [], rng)))
+        else:
+            model_in.append((4, model_retr_args(c, [], rng)))
+    model_out = dict(zip(idx, ctx.model(model_in)))
+    for i, (case, res) in enumerate(zip(cases, results)):
+        c = case_defaults(case)
+        ctx.case(("real", repr(sorted(jsonable({k: v for k, v in c.items() if not k.startswith("_")}).items()))))
+        ctx.count("real_verb_" + c["verb"])
+        ctx.count("real_backend_" + c["backend"])
+        ctx.count("real_size_" + case["_plabel"])
+        if c["verb"] in ("UPLOAD", "DOWNLOAD"):
+            ctx.count("real_client_fs_" + c["client_fs"])
+        if c["throttle"]:
+            ctx.count("real_slow_receiver")
+        if i not in model_out:
+            ctx.count("real_cases_beyond_model_size_oracle_only")
+        n_exist = len(c["payload"]) if c["verb"] in ("RETR", "DOWNLOAD") else len(c["old"] or b"")
+        ctx.count("real_" + classify_offset(c["offset"], n_exist))
+        check_case(ctx, case, res, model_out.get(i), stream="real-loopback")
+    ctx.count("real_loopback_cases", len(cases))
+    ctx.extra["real_loopback_wall_s"] = round(time.time() - t0, 1)
+
+
+
 def correspondence(ctx, scale=None):
     thorough = ctx.tier == "thorough"
     scale = scale or (8 if thorough else 1)
@@ -1817,7 +1987,13 @@ def correspondence(ctx, scale=None):
         "virtual s) DURING multi-block transfers slowed to one block per second, on memory / PathIO / AsyncPathIO / buffering backends; backends "
         "whose close() fails after a partial flush (buffering and real-file spy, limit 12 bytes) x sizes around the limit; (b2) "
         "timed read traces: 0-6 segments at non-decreasing instants (gaps 0..1000) x scripted wait delays (0..5000) x block size, real "
-        "ThrottleStreamIO.read on the virtual clock vs timed_trace (blocks AND instants). A case "
+        "ThrottleStreamIO.read on the virtual clock vs timed_trace (blocks AND instants); (h) the session driver over REAL sockets "
+        "(127.0.0.1:0, real event loop): server backend memory / PathIO / AsyncPathIO x client file system memory / PathIO / AsyncPathIO "
+        "(fresh directory under the system temp dir) x download_stream at REST 0 / 1 / mid / 8191 / 8192 / 8193 / size-1 / size / size+5 x "
+        "upload_stream / append_stream at REST 0 / 1 / mid / size / size+5 onto missing / existing content x upload() / download() x sizes 10, "
+        "8192, 24699, 2 MiB + 17, and files of 8-12 MiB of pairwise distinct random blocks moved with upload() / download() towards a "
+        "receiver throttled to 6 MiB/s (the sender's transport has to queue: partial send(), write buffer between the water marks); "
+        "byte equality with the plain-Python oracle for all, with the model for everything below 40 000 bytes; never a timing assertion. A case "
         "is non-trivial when its full input tuple is distinct (hash); every session case moves real bytes through the real code."
     )
     xcheck = []
@@ -1826,6 +2002,7 @@ def correspondence(ctx, scale=None):
     offset_stream(ctx, xcheck)
     missing_restart_stream(ctx, xcheck)
     files_stream(ctx, xcheck, scale)
+    real_stream(ctx, xcheck)
     ok, out = core.vm_crosscheck(EXTRACT, xcheck[:100])
     ctx.extra["vm_compute_crosscheck"] = {"cases": len(xcheck[:100]), "agree": ok}
     if not ok:
@@ -1877,7 +2054,7 @@ def replay(ctx, data):
         print("replay payload:", data)
         return False
     case = unjson(r["case"])
-    res = run_case(case)
+    res = run_any(case)
     c = case_defaults(case)
     verb, payload, off, old = c["verb"], c["payload"], c["offset"], c["old"]
     print("result:", {k: (v.hex()[:120] if isinstance(v, bytes) else v) for k, v in res.items() if k not in ("seg_up", "seg_down")})
